@@ -79,6 +79,18 @@ def cases(draw):
             it["attrs"].append('#[diplomat::attr(auto, namespace = "%s")]' % ns)
             it["attrs"].append('#[diplomat::attr(cpp, rename = "DvSharedName")]')
         placed = list(placed) + ["same-cpp-name-in-two-namespaces"]
+    # ordinary derives on bridge enums (the macro adds Clone and Copy to every enum itself)
+    derived = False
+    for _, it in ir.all_items(prog):
+        if it["kind"] == "enum" and draw(st.integers(0, 3)) == 0:
+            d = draw(st.sampled_from(["Clone, Copy", "Copy, Clone, PartialEq, Eq", "Debug", "Clone", "Debug, PartialEq", "core::clone::Clone, core::marker::Copy", "Hash, PartialEq, Eq"]))
+            if draw(st.booleans()):
+                it["attrs"].insert(0, "#[derive(%s)]" % d)
+            else:
+                it["attrs"].append("#[derive(%s)]" % d)
+            derived = True
+    if derived:
+        placed = list(placed) + ["derive-on-enum"]
     order_seed = draw(st.integers(0, 2 ** 30))
     return prog, placed, order_seed
 
